@@ -555,7 +555,11 @@ func c14RouterClient(sc *Scenario, recs []*ReqRec, nocache *World, concurrent bo
 // needed: the bound, the survivor set and the victim order are checked directly.
 func genC14Huge(rng *Rng, sc *Scenario) {
 	sc.CacheCap = []int{255, 256, 1000, 65535, 65535}[rng.Intn(5)]
-	sc.Clients = []Client{{Ops: []COp{{Op: "fill", Val: rng.Range(1, 600)}}}} // Val: how many keys beyond the capacity
+	extra := rng.Range(1, 600)
+	if rng.Chance(1, 4) {
+		extra = []int{65535, 65536, 65537, 70001}[rng.Intn(4)] // as many evictions as a 16-bit counter holds
+	}
+	sc.Clients = []Client{{Ops: []COp{{Op: "fill", Val: extra}}}} // Val: how many keys beyond the capacity
 }
 
 func checkC14Huge(sc *Scenario) *CheckOut {
